@@ -35,11 +35,11 @@ THEOREMS = ['C11_inverse_den', 'C11_inverse_complcell_rejects',
             'C11_parse_print_canonical', 'C11_parse_print',
             'C11_layout_exists', 'C11_pipeline',
             'C11_parse_psem', 'C11_accepted_iff',
-            'C11_nested_rejected', 'C11_colon_hash_rejected',
+            'C11_nested_rejected', 'C11_psem_is_sem',
             'C11_parse_sound', 'C11_lex_sound', 'C11_get_ast_sound',
             'C11_split_card', 'C11_card_geometry',
             'C11_get_ast_accepts_iff',
-            'C11_nested_refuted', 'C11_colon_hash_refuted']
+            'C11_nested_refuted']
 TRUSTED = [
     'hand-written model coq/C11/Model.v: lexer + pushdown precedence parser '
     'standing for the regex pipeline + PEG (structurally different from the '
@@ -57,7 +57,8 @@ ASSUMPTIONS = [
     "implementation's private characters _ ^ * and the word LIKE never occur "
     'in input',
     'surface numbers are non-zero; facet suffix is one digit',
-    'layout family of C11_parse_print: any blanks before/after tokens and '
+    'layout family of C11_parse_print: any blanks before/after tokens (none '
+    'needed between : and #, /repo d73f13e) and '
     'after #, any digit spelling, optional +, redundant parentheses as '
     'MParen nodes of the expression',
     'complement of a lattice cell: the code returns an empty intersection; '
@@ -73,7 +74,6 @@ HEADER = ('From Coq Require Import List NArith ZArith Bool String Ascii.\n'
           'Open Scope string_scope.\n')
 
 CLS_NESTED = 'nested_complement_of_cellref'
-CLS_COLON = 'complement_after_colon'
 ALPHABET = '12-#(): .'
 FP_P = 2147483647
 
@@ -276,48 +276,6 @@ def has_cell_under_not(e, under=False):
     return False
 
 
-def first_is_hash(e, level):
-    '''does the text of e printed at `level` start with '#' ?'''
-    tag = e[0]
-    if tag in ('#', '#c'):
-        return True
-    if tag == '*':
-        return False if level > 1 else first_is_hash(e[1], 1)
-    if tag == ':':
-        return False if level > 0 else first_is_hash(e[1], 0)
-    return False        # literal, parenthesis
-
-
-def has_colon_hash(e):
-    '''some right operand of ':' is written starting with '#' '''
-    tag = e[0]
-    if tag == ':':
-        return (first_is_hash(e[2], 1) or has_colon_hash(e[1])
-                or has_colon_hash(e[2]))
-    if tag == '*':
-        return has_colon_hash(e[1]) or has_colon_hash(e[2])
-    if tag in ('#', 'p'):
-        return has_colon_hash(e[1])
-    return False
-
-
-def protect(e):
-    '''same expression, every complement that follows a colon put inside
-    redundant parentheses (the writing the implementation accepts)'''
-    tag = e[0]
-    if tag == ':':
-        right = protect(e[2])
-        if first_is_hash(right, 1):
-            right = ('p', right)
-        return (':', protect(e[1]), right)
-    if tag == '*':
-        left = protect(e[1])
-        return ('*', left, protect(e[2]))
-    if tag in ('#', 'p'):
-        return (tag, protect(e[1]))
-    return e
-
-
 # ---- layouts --------------------------------------------------------------
 # a layout gives the number of blanks per KIND of gap:
 #   op  between two operands of an intersection (1 is added where MCNP needs a
@@ -494,6 +452,11 @@ CORPUS = [
     ('#5-1', ('*', ('^', 5), L(-1))), ('#12', ('^', 12)),
     ('#105 1', ('*', ('^', 105), L(1))), ('# 0012', ('^', 12)),
     ('1:(#5)', (':', L(1), ('^', 5))),
+    # a complement directly after the colon (rejected before /repo d73f13e)
+    ('1:#2', (':', L(1), ('^', 2))), ('1 : #2', (':', L(1), ('^', 2))),
+    ('1:#(2)', (':', L(1), L(-2))), ('(1):#2', (':', L(1), ('^', 2))),
+    ('1 2:#(3 4)', (':', ('*', L(1), L(2)), (':', L(-3), L(-4)))),
+    ('#1:#2', (':', ('^', 1), ('^', 2))), ('1:# 2 3', (':', L(1), ('*', ('^', 2), L(3)))),
     # not expressions
     ('', None), (' ', None), ('1 :', None), (': 1', None), ('1 : : 2', None),
     ('()', None), ('(1', None), ('1)', None), ('#', None), ('# #5', None),
@@ -501,10 +464,9 @@ CORPUS = [
     ('1.2.3', None), ('1-2', None), ('1+2', None), ('#(1', None),
     ('#()', None), ('1 # 2)', None), ('1.23', None), ('--1', None),
 ]
-CORPUS_KNOWN = [       # well-formed, rejected by the code (the two classes)
+CORPUS_KNOWN = [       # well-formed, rejected by the code (the known class)
     ('#(-2 #1)', CLS_NESTED), ('#(#1)', CLS_NESTED), ('#(1:(#2) 3)', CLS_NESTED),
-    ('1:#2', CLS_COLON), ('1 : #2', CLS_COLON), ('1:#(2)', CLS_COLON),
-    ('(1):#2', CLS_COLON), ('1 2:#(3 4)', CLS_COLON), ('#1:#2', CLS_COLON),
+    ('#(1:#2 3)', CLS_NESTED),
 ]
 
 
@@ -601,8 +563,6 @@ def classify(e, out):
     '''narrow known-finding class of a rejected well-formed expression'''
     if out == ('err', 'EAttribute') and has_cell_under_not(e):
         return CLS_NESTED
-    if out == ('err', 'EParse') and has_colon_hash(e):
-        return CLS_COLON
     return None
 
 
@@ -690,7 +650,7 @@ def run(res, tier, seed, proofs_ok):
         explicit.add(text, out, 'corpus')
         res.seen(text)
         if out[0] == 'err':
-            want = 'EAttribute' if cls == CLS_NESTED else 'EParse'
+            want = 'EAttribute'
             res.violation('impl-violation',
                           f'well-formed MCNP expression {text!r} is rejected '
                           f'({out[1]})',
@@ -804,14 +764,7 @@ def run(res, tier, seed, proofs_ok):
             out0 = impl_get_ast(text0)
             explicit.add(text0, out0, 'small')
             res.seen(text0)
-            accepted = sweep_expr(res, ref, e, text0, out0, f'small{k}')
-            if not accepted and has_colon_hash(e) \
-                    and not has_cell_under_not(e):
-                pe = protect(e)
-                ptext = render(pe, CANON)
-                pout = impl_get_ast(ptext)
-                explicit.add(ptext, pout, 'small-protected')
-                sweep_expr(res, ref, pe, ptext, pout, f'small{k}-protected')
+            sweep_expr(res, ref, e, text0, out0, f'small{k}')
             # all 64 layouts for <= 2 (quick) / <= 3 (thorough) operands, a
             # sample of 16 / 8 of them for the largest size of the tier
             if k < (3 if quick else 4):
@@ -853,12 +806,6 @@ def run(res, tier, seed, proofs_ok):
         generated.append(text)
         res.seen(text)
         accepted = sweep_expr(res, ref, e, text, out, 'random')
-        if not accepted and has_colon_hash(e) and not has_cell_under_not(e):
-            pe = protect(e)
-            ptext = render(pe, lay)
-            pout = impl_get_ast(ptext)
-            explicit.add(ptext, pout, 'random-protected')
-            sweep_expr(res, ref, pe, ptext, pout, 'random-protected')
         if accepted:
             text2 = render(e, CANON)
             out2 = impl_get_ast(text2)
@@ -936,7 +883,7 @@ def gen_table(rng):
         earlier = ids[:k]
         for _ in range(30):
             e = gen_expr(rng, rng.randint(1, 3), 3, cells=earlier)
-            if not has_cell_under_not(e) and not has_colon_hash(e):
+            if not has_cell_under_not(e):
                 break
         else:
             e = ('s', 1, None)
